@@ -93,7 +93,14 @@ impl InsertionContext {
     /// Restores valid context state.
     pub fn restore(&mut self) {
         self.problem.goal.accept_solution_state(&mut self.solution);
+
+        let routes = self.solution.routes.len();
         self.solution.remove_empty_routes();
+
+        // NOTE: solution state (e.g. work balance) should not be calculated with routes which are not part of solution
+        if routes != self.solution.routes.len() {
+            self.problem.goal.accept_solution_state(&mut self.solution);
+        }
     }
 }
 
